@@ -1,6 +1,7 @@
 from __future__ import annotations
 
 from abc import ABC, abstractmethod
+from copy import deepcopy
 import re
 import types
 from typing import (
@@ -514,7 +515,9 @@ class SigmaExpandModifier(
     def modify(
         self, val: SigmaString | SigmaRegularExpression
     ) -> SigmaString | SigmaRegularExpression:
-        return val.insert_placeholders()
+        # insert_placeholders() changes the value in place, but the unmodified value object is also
+        # kept as original value of the detection item for serialization.
+        return deepcopy(val).insert_placeholders()
 
 
 class SigmaTimestampModifier(SigmaValueModifier[SigmaNumber, SigmaTimestampPart]):
